@@ -11,7 +11,7 @@ are; both are fed the same strictly conforming CSR stream and must be indistingu
 import random
 
 from vmon import env  # noqa: F401
-from vmon.simkit import Top, Mon, simulate, bits
+from vmon.simkit import Top, Mon, simulate, bits, new_map
 from vmon.work.mux import Probe
 
 from amaranth_soc import csr
@@ -75,7 +75,7 @@ def run_bare(case, rng):
         if rng.random() < 0.08:
             k = aw + rng.randint(0, 1)        # does not fit (or fills the decoder): a rejected add is part of the history
         sub = csr.Interface(addr_width=k, data_width=dw, path=(f"sub{i}",))
-        sub.memory_map = MemoryMap(addr_width=k, data_width=dw)
+        sub.memory_map = new_map(addr_width=k, data_width=dw)
         if rng.random() < 0.3:
             try:
                 dec.align_to(rng.randint(0, aw))
